@@ -132,6 +132,19 @@ def set_cookie(chk, prog):
             chk.ob("R3.independent", f, f"field {name} is looked at on every path (its attribute does not depend on another attribute being absent)", w is None,
                    f"SetCookie.{name} is only consulted on some paths: for some combination of the other attributes it is silently dropped", where=body.file, path=w)
     lits = " ".join(fmt.format_literals(body))
+    # attribute names may also be appended with push_str("; Name=") instead of format!: every string constant of the function counts
+    for fam_b in [body] + prog.all_closures_of(f) + [prog.bodies[h_] for h_ in getattr(prog, "inlined", {}).get(f, []) if h_ in prog.bodies]:
+        for blk_ in fam_b.blocks:
+            cands = []
+            for st_ in blk_["stmts"]:
+                rv_ = st_.get("rv") or {}
+                cands += [rv_.get("o")] + list(rv_.get("ops") or [])
+            t_ = blk_["term"]
+            if t_ and t_["k"] == "call":
+                cands += t_["args"]
+            for o_ in cands:
+                if isinstance(o_, dict) and o_.get("k") == "const" and isinstance(o_.get("v"), str):
+                    lits += " " + o_["v"]
     for attr in ("Expires=", "Max-Age=", "Domain=", "Path=", "SameSite=", "Secure", "HttpOnly"):
         chk.ob("R3.attr", f, f"attribute {attr}", ("; " + attr) in lits, f"no format piece '; {attr}' in the serialiser (RFC 6265 §4.1.1 attribute names)")
     # SameSite table
@@ -210,13 +223,54 @@ def redirect_set(chk, prog, st):
                             if bv != ("lit", False):
                                 compared.add(tables.variant_name(k[1]))
     scan(h, None)
+    for helper in getattr(prog, "inlined", {}).get(f, []):
+        if helper in prog.hir:
+            scan(prog.hir[helper]["body"], None)
     codes = sorted(st["v2c"].get(v, -1) for v in compared)
     chk.ob("R5.set", f, "redirect statuses == {301,302,307}", codes == [301, 302, 307],
            f"the client follows redirects for status set {codes} (variants {sorted(compared)})", where=body.file)
     # recursion only under the test
     rec_closures = [c for c in prog.all_closures_of(f) if c.calls_to(r"ClientRequest::<'a>::send$")]
-    chk.floor("recursive send site", len(rec_closures), 1)
+    direct = [blk for blk, t in body.calls_to(r"ClientRequest::<'a>::send$")]
+    chk.floor("recursive send site", len(rec_closures) + len(direct), 1)
     fr = next((i for i, x in enumerate(prog.structs["humphrey::client::ClientRequest"]["fields"]) if x["name"] == "follow_redirects"), None)
+    # flat form (no closures): the re-send is a call in send() itself
+    for b in direct:
+        gs = core.guards_dominating(prog, body, b)
+
+        def on_flag(lab, d):
+            pos = core.desc_contains(d, lambda x: x[0] == "field" and x[2] == fr and x[1][0] == "param")
+            neg = core.desc_contains(d, lambda x: x[0] == "un" and x[1] == "Not")
+            return pos and ((lab == "true" and not neg) or (lab == "false" and neg))
+        flag = any(on_flag(lab, d) for s_, lab, d, _ in gs)
+        followed = {"MovedPermanently", "TemporaryRedirect", "Found"}
+        st_labels = [lab for s_, lab, d, info in gs if info and (info.get("src_ty") or "").endswith("status::StatusCode")]
+        status = bool(st_labels) and set(st_labels) <= followed
+        chk.ob("R5.guard", f, "recursive send dominated by follow_redirects", flag, "the client may re-send without follow_redirects being set", where=body.where(b))
+        chk.ob("R5.guard", f, "recursive send dominated by the redirect-status test", status, f"status conditions on the re-send: {sorted(set(st_labels))}", where=body.where(b))
+        # once both tests hold, every way out is the re-send or an error about the Location value (never the redirect itself, never a counter)
+        entry = None
+        for s_, lab, d, info in gs:
+            if info and (info.get("src_ty") or "").endswith("status::StatusCode") and lab in followed:
+                entry = info["edges"][lab]
+        if entry is not None:
+            errs = [i for i, blk_ in enumerate(body.blocks) for s2 in blk_["stmts"] if "pl" in s2 and s2["pl"]["l"] == 0 and not s2["pl"]["p"] and
+                    s2["rv"].get("k") == "agg" and s2["rv"].get("variant") == "Err"]
+            errs += [blk for blk, t in body.calls_to(r"FromResidual>?::from_residual$") if t["dest"]["l"] == 0]
+            w = core.must_pass(body, [entry], core.return_blocks(body), through_nodes=[b] + errs, after_from=False)
+            chk.ob("R5.follows", f, "a redirect response with follow_redirects set is always followed (every path reaches the re-send)", w is None,
+                   "between the redirect test and the re-send there is a way out that is not an error about the Location value", where=body.where(b), path=w)
+            counters = []
+            for s2 in sorted(body.reachable([entry], removed_nodes=[b])):
+                t2 = body.term(s2)
+                if t2 and t2["k"] == "switch":
+                    dd = core.describe(prog, body, t2["discr"])
+                    self_state = core.desc_contains(dd, lambda x: x[0] == "field" and x[1][0] == "param" and x[1][1] == 1) and \
+                        not core.desc_contains(dd, lambda x: x[0] == "call" and core.re.search(r"Client::request|Headers::get|parse_url|starts_with", x[1]) is not None)
+                    if self_state and t2.get("discr_ty") in ("bool",) or (self_state and "usize" in str(t2.get("discr_ty"))):
+                        counters.append(body.where(s2))
+            chk.ob("R5.follows", f, "between the redirect test and the re-send, branches depend on the response / Location only (not on client state)", not counters,
+                   f"branch on client state at {counters}")
     for c in rec_closures:
         # construction site of (an ancestor of) this closure in `send`
         top = c
@@ -248,11 +302,22 @@ def redirect_set(chk, prog, st):
                     odd.append(c.where(blk))
             chk.ob("R5.follows", f, "inside the re-send closure, branches depend on the Location value only (not on client state)", not odd,
                    f"branch on captured client state at {odd}", where=c.file)
-    # the non-redirect exit returns the transport result unchanged
-    prods = core.slice_back(prog, body, 0, stop_calls=[r"Client::request(_tls)?$", r"::and_then$"])
-    names = sorted(set(p.name() for p in prods if p.kind == "call"))
-    ok = all(n.endswith("::and_then") or "Client::request" in n for n in names) and any("Client::request" in n for n in names)
-    chk.ob("R5.final", f, "non-redirect result is the transport's response", ok, f"send() result producers: {names}")
+    # the non-redirect exit returns the transport result unchanged: every plain return of a value (not the re-send, not an error built
+    # here) is the value that Client::request / request_tls produced
+    plain, via_calls = [], []
+    for d_ in body.defs().get(0, []):
+        if d_[2] == "call":
+            via_calls.append(d_[3].get("resolved") or d_[3].get("callee") or "?")
+        elif d_[3]["rv"]["k"] == "use" and not d_[3]["pl"]["p"]:
+            plain.append(core.describe(prog, body, d_[3]["rv"]["o"]))
+    transport = lambda v: core.desc_contains(v, lambda x: x[0] == "call" and core.re.search(r"Client::request(_tls)?$", x[1]) is not None)
+    ok_calls = all(core.re.search(r"::and_then$|ClientRequest::<'a>::send$|from_residual$", n) for n in via_calls)
+    if plain:
+        ok = all(transport(v) for v in plain) and ok_calls
+    else:
+        d0 = core.describe(prog, body, 0)
+        ok = transport(d0) and ok_calls
+    chk.ob("R5.final", f, "non-redirect result is the transport's response", ok, f"plain returns: {[core.short(str(v))[:60] for v in plain]}; returning calls: {via_calls}")
 
 
 def run(chk):
